@@ -5,7 +5,9 @@ CFG = cfg('C13', refine=['Refine_fresh'], extract='Ex_C13', driver='c13',
                '(purpose from the calling frames, size, position in the process-wide sequence of draws) is compared with the trace of the extracted '
                'model: 9 ciphers x {passphrase, RSA, ECDH Curve25519, ECDH NIST P-256 (+P-384, P-521, secp256k1 thorough)} x {drawn, supplied} '
                'session key, each operation carried out twice in a row on the identical message and recipient; protect on keys with 1..3 packets; '
-               'already-encrypted messages; random sequences of 2..8 operations. Values: all draws of >= 8 octets pairwise distinct over the whole '
+               'already-encrypted messages; refused operations (supplied session key of the wrong length: must raise and draw nothing; protect with '
+               'Plaintext / IDEA / Twofish256: must raise after exactly the draws the model lists) interleaved with accepted ones; random sequences '
+               'of 2..8 operations. Values: all draws of >= 8 octets pairwise distinct over the whole '
                'process, none a substring of message / passphrase, none constant; a drawn value occurs in the output iff the model says its cell is '
                'exposed; session key / prefix / ephemeral scalar never in the output; salt, IV, ephemeral point read back from the exported packets '
                'equal the drawn ones and never repeat; SEIPD decrypted with `cryptography` under the drawn (or supplied) session key starts with '
@@ -20,7 +22,9 @@ CFG = cfg('C13', refine=['Refine_fresh'], extract='Ex_C13', driver='c13',
 TEXT = ('Rocq theorems (Props/C13.v, closed under the global context) about a model of the calls to the random source in call order of the real code: '
         'sizes (session key = cipher key size, prefix = block size, salt = 8, IV = block size) for every operation and along every sequence; the '
         'i-th draw of a process takes cell n+i, hence no cell is shared between purposes or operations (induction over arbitrary op lists); the '
-        'trace depends only on the shape of the operations, never on message / passphrase / recipient (non-interference); over whole sequences no '
+        'trace depends only on the shape of the operations (of a supplied key only its presence and whether its length fits), never on message / '
+        'passphrase / recipient / key octets (non-interference); a supplied key of the wrong length is refused before anything is drawn, a refused '
+        'protect has no output and has drawn at most the IV and salt of the first packet; over whole sequences no '
         'cell drawn as session key, prefix or ephemeral secret is readable in any symbolic output (subterm lemma), while salts are; a supplied '
         'session key is used as given and nothing is drawn for it. Tie: draws observed by interposing os.urandom / key generation from the harness '
         'compared with the extracted model per operation, plus value-level checks on the real outputs. PARTIAL: RNG quality is outside any model.',
